@@ -28,6 +28,14 @@ CHECKS = {
    text="Proof (Coq): Arch.Is equals the property's matching rule on its domain and is symmetric there; ArchSet.Matches is (some entry matches) xor negated with the empty list admitting everything; GetPossibilities is, per relation and in order, the first non-substvar alternative whose list admits the architecture; SatisfiedBy holds iff the number parses and Compare has the sign the operator asks for (C06.v: 5 theorems, generic in the type of component names, closed). Tie: all 65x65 pairs of the abstract domain (exhaustive) against both the model and an independent statement of the rule, real names through ParseArch, all lists of <=3 entries x negation x targets, random dependency fields x architectures, (op, N, V) over a version pool incl. equal-but-different and unparsable N and unknown operators.",
    note="Trusted: as C01. The model compares component names as opaque values; the tie instantiates them with byte strings. SatisfiedBy composes the C03 parser and the C01 comparison.",
    technique="Coq proof (finite case analysis, generic in the name type) + exhaustive correspondence on the abstract domain", ref="5/C06"),
+ "C07": dict(
+   text="Proof (Coq): for every document laid out from the model - paragraphs of fields with distinct keys, any blanks around the colon and at line ends (CR included), space or tab continuation markers, ' .' lines, comments anywhere, skippable lines before each paragraph, a blank line (or the end of input, with or without final newline) after it - read_all returns exactly the paragraphs' (key, logical value) lists in order; and for ANY list of lines every returned paragraph has NoDup keys and a value for exactly the keys it lists (C07.v: 4 theorems, closed). Tie: documents from the model x layouts with the expected result computed independently by the driver, mutations (orphan continuation, duplicate field, stray CR, whitespace-only lines, missing colon), raw bytes; Next loop, All, Unmarshal into a slice and Decoder.Decode loop compared with each other and with the model; the invariant re-checked on the implementation's output.",
+   note="Trusted: as C01. The model's whitespace is ASCII; inputs containing UTF-8 encodings of non-ASCII Unicode spaces are not generated. In-memory readers only (no I/O errors). The three entry points are one function in the model; their agreement is established by the tie.",
+   technique="Coq proof (reader o layout-renderer composition, invariant by induction over lines) + differential correspondence against ParagraphReader", ref="5/C07"),
+ "C08": dict(
+   text="Proof (Coq): a paragraph of reader-form fields written by WriteTo reads back as exactly the same paragraph (followed by a blank line and more text, or by nothing) - so read-write-read is the identity and the text is a fixpoint; for ANY value no line written is empty or whitespace-only; paragraphs written through the encoder read back as the same paragraphs (C08.v: 3 theorems, closed). Tie: WriteTo on all sequences of <=4 lines over 6 line shapes with and without trailing newline, random paragraphs, and three write/read cycles through the Encoder on every document the reader accepts (model documents and their mutations), with the property's own predicates (same fields/order/logical lines, text fixpoint, no blank line inside a paragraph, paragraph count) evaluated on the implementation.",
+   note="Trusted: as C01. Known finding (class empty-first-line): a multi-line value whose first logical line is empty loses that line (C08_empty_first_line_refuted). Lines that are '.' alone or whitespace-only are not representable in deb822 and are excluded.",
+   technique="Coq proof (writer o reader composition) + differential correspondence against WriteTo/Encoder/ParagraphReader", ref="5/C08"),
 }
 NOT_YET = {}
 
